@@ -160,13 +160,21 @@ DROPIN_LINES = {'pod': ['ServiceName=pd-svc', 'ServiceName=other pod', 'PodName=
 def gen_tree(rnd):
     fs = gen_set(rnd)
     files = {}
+    links = {}
     for name, text in fs.items():
-        files['src/' + name] = text
         ty = refs.ty_of(name)
+        if rnd.random() < 0.2:
+            # the unit is a symbolic link to a file of another name elsewhere: a unit is known by the name it has in the
+            # search directory (that is the name Pod= uses and the name the service is derived from)
+            tgt = 'store/' + rnd.choice(['real-' + name, 'f%d' % len(links), name.replace('.', '-prod.')])
+            files[tgt] = text
+            links['src/' + name] = '../' + tgt
+        else:
+            files['src/' + name] = text
         for conf in rnd.sample(['10-a.conf', '20-b.conf'], rnd.randint(0, 2)):
             if rnd.random() < 0.6 and ty in DROPIN_LINES:
                 files[f'src/{name}.d/{conf}'] = '[' + G.SEC[ty] + ']\n' + rnd.choice(DROPIN_LINES[ty]) + '\n'
-    return fs, files
+    return fs, files, links
 
 
 def wiring_failures(printed):
@@ -223,16 +231,29 @@ def oracle(ctx):
     trees_ = [gen_tree(rnd) for _ in range(400 if ctx.thorough else 120)]
 
     def run(t):
-        fs, files = t
-        r = e2e.run_case(files, dry_run=True)
+        fs, files, links = t
+        r = e2e.run_case(files, dry_run=True, symlinks=links)
         return r['printed_order'], r['exit'], r['stderr']
-    for (fs, files), (printed, rc, se) in zip(trees_, e2e.pmap(run, trees_)):
+    for (fs, files, links), (printed, rc, se) in zip(trees_, e2e.pmap(run, trees_)):
         res.oracle_evals += 1
+        if links:
+            files = dict(files, **{k + ' (symbolic link)': v for k, v in links.items()})
+        # a pod file that is there under the name Pod= uses (a regular file or a symbolic link) is never reported missing
+        for name in fs:
+            if name.endswith('.pod') and re.search(r'pod unit "?' + re.escape(name) + r'"? does not exist', se) and not re.search(r'[Ee]rror loading [^\n]*' + re.escape(name), se):
+                res.oracle_failures.append(dict(op='e2e', input=files, impl_output=dict(exit=rc, stderr=e2e.error_lines(se)[:4]),
+                                                oracle_expectation=f'{name} exists in the search directory: a container naming it is linked to it, not rejected'))
+        # every pod of the tree gets the service its name in the search directory stands for
+        sources = {os.path.basename(m.group(1).strip('"').replace('\\x20', ' ')) for _, text in printed for m in [re.search(r'^SourcePath=(.*)$', text, re.M)] if m}
+        for name in fs:
+            if name.endswith('.pod') and name not in sources and not re.search(re.escape(name), se):
+                res.oracle_failures.append(dict(op='e2e', input=files, impl_output=dict(exit=rc, sources=sorted(sources), stderr=e2e.error_lines(se)[:4]),
+                                                oracle_expectation=f'a service is generated for {name} under that name (SourcePath names the file in the search directory), or an error names it'))
         # two units with one service file name (KF-C10-1 situation) make "the service generated for p" ambiguous: skip
         names = [os.path.basename(p) for p, _ in printed]
         if len(names) != len(set(names)):
             continue
         for f in wiring_failures(printed):
             res.oracle_failures.append(dict(op='e2e', input=files, impl_output=dict(exit=rc, services=names), oracle_expectation=f))
-    res.samples.append(dict(kind='e2e-tree', files=trees_[0][1]))
+    res.samples.append(dict(kind='e2e-tree', files=trees_[0][1], symlinks=trees_[0][2]))
     ctx.log(f'oracle (whole runs with drop-ins): {len(trees_)} trees, {len(res.oracle_failures)} failures in total')
